@@ -84,6 +84,11 @@ def run(ctx):
         ro = [("c10_readonly", [kind, rng.choice(specs)]) for kind, specs in pop.items() for _ in range(10 if quick else 100)]
         for rq, r in zip(ro, run_impl(ro)):
             if isinstance(r, Err):
+                # the probe only reads views and scribbles on what it was handed: an exception means that a
+                # handed-out view was part of the object's state
+                found.append({"key": {"kind": rq[1][0], "spec": rq[1][1]}, "input": rq[1],
+                              "what": f"after mutating handed-out views the object raises {r.kind}",
+                              "snippet": f"# harness op c10_readonly {rq[1]!r}"})
                 continue
             for attr, raised, unchanged in r:
                 if not raised or not unchanged:
